@@ -63,14 +63,15 @@ type C11Mutator struct {
 }
 
 type C11Scenario struct {
-	Mem        bool            `json:"mem,omitempty"`    // in-memory swamp
-	Reload     bool            `json:"reload,omitempty"` // close + re-summon after seeding (records are then file-backed)
-	Cold       bool            `json:"cold,omitempty"`   // no warm-up: the first build of every index / bucket races the concurrent phase
-	Recs       []C11Rec        `json:"recs"`
-	PreDeletes []int           `json:"pre_deletes,omitempty"` // deleted (acknowledged) before the concurrent phase
-	Claimers   []C11Claimer    `json:"claimers"`
-	Mutators   []C11Mutator    `json:"mutators,omitempty"`
-	Plan       []vsched.Action `json:"plan,omitempty"`
+	Mem             bool            `json:"mem,omitempty"`               // in-memory swamp
+	Reload          bool            `json:"reload,omitempty"`            // close + re-summon after seeding (records are then file-backed)
+	Cold            bool            `json:"cold,omitempty"`              // no warm-up: the first build of every index / bucket races the concurrent phase
+	ColdIndexForced bool            `json:"cold_index_forced,omitempty"` // witness only: keep the order indexes cold even while index-visible-before-built is open
+	Recs            []C11Rec        `json:"recs"`
+	PreDeletes      []int           `json:"pre_deletes,omitempty"` // deleted (acknowledged) before the concurrent phase
+	Claimers        []C11Claimer    `json:"claimers"`
+	Mutators        []C11Mutator    `json:"mutators,omitempty"`
+	Plan            []vsched.Action `json:"plan,omitempty"`
 }
 
 var (
@@ -83,7 +84,7 @@ func keyOf(i int) string { return fmt.Sprintf("k%03d", i) }
 
 // open findings steer the main generator
 type c11Open struct {
-	deadlock, nonAtomic, stale, gap, resave, emptyCand, reindexDup, sortRace bool
+	deadlock, nonAtomic, stale, gap, resave, emptyCand, reindexDup, sortRace, halfBuilt bool
 }
 
 func c11OpenNow() c11Open {
@@ -96,6 +97,7 @@ func c11OpenNow() c11Open {
 		emptyCand:  pbt.Open("C11", "empty-candidate-set-matches-all"),
 		reindexDup: pbt.Open("C11", "reindex-duplicates-order-entry"),
 		sortRace:   pbt.Open("C11", "expiry-sort-reads-live-values"),
+		halfBuilt:  pbt.Open("C11", "index-visible-before-built"),
 	}
 }
 
@@ -299,6 +301,9 @@ func genC11(mode c11Mode, open c11Open) func(t *rapid.T) C11Scenario {
 	}
 	if !open.reindexDup {
 		forced = append(forced, genC11ReindexDup)
+	}
+	if !open.halfBuilt {
+		forced = append(forced, genC11HalfBuilt)
 	}
 	return func(t *rapid.T) C11Scenario {
 		if k := rapid.IntRange(0, 39).Draw(t, "forced-regression"); k < len(forced) {
@@ -684,12 +689,15 @@ func runC11Inner(s C11Scenario) pbt.Outcome {
 	}
 	// --- warm-up (unless the scenario is cold): build every index and bucket before the concurrent phase.
 	// Cold scenarios leave the first builds to the racing requests themselves.
-	if !s.Cold {
+	if !s.Cold || (c11OpenNow().halfBuilt && !s.ColdIndexForced) {
+		// (open finding index-visible-before-built: a claim racing the first build of its index walks it half-built)
 		for _, it := range []hydrapb.IndexType_Type{hydrapb.IndexType_KEY, hydrapb.IndexType_EXPIRATION_TIME, hydrapb.IndexType_CREATION_TIME} {
 			if _, err := e.r.G.GetByIndex(e.ctx, &hydrapb.GetByIndexRequest{IslandID: isl, SwampName: sn, IndexType: it, Limit: 1}); err != nil {
 				return pbt.Failf("harness", "warm-up GetByIndex: %v", err)
 			}
 		}
+	}
+	if !s.Cold {
 		// (buckets are built through PatchExpired: its selection predicate rejects every record
 		// when the looked-up value is absent, so the warm-up itself changes nothing)
 		for _, l := range []Leg{{Field: "status", Op: "eq", S: "__none__"}, {Field: "owner", Op: "eq", S: "__none__"}, {Field: "n", Op: "eq", I: -777}} {
@@ -1438,6 +1446,9 @@ const c11Rule = "swamp with 5–60 msgpack records {status, owner, n} (ExpiredAt
 func c11Excluded(facet string, o c11Open) {
 	if o.deadlock {
 		pbt.Excluded("C11", facet, "Delete / expiry-changing writes / other-index Shift* concurrent with a Shift* (open finding shift-vs-guard-holder-deadlock)")
+	}
+	if o.halfBuilt {
+		pbt.Excluded("C11", facet, "first build of an order index concurrent with a claim over it: cold scenarios keep only the buckets cold (open finding index-visible-before-built)")
 	}
 	if o.sortRace {
 		pbt.Excluded("C11", facet, "order clause on the expiry index in scenarios with a lease / expiry slide / removal of file-backed records (open finding expiry-sort-reads-live-values)")
